@@ -3,6 +3,6 @@ CONSTANTS
   Vary = {"fn", "pos", "arg"}
   Fns = {"Println", "Printf", "Sprint", "Fprintln", "Errorf", "Sscan"}
   Shs = {"-"}
-  ScopeAware = FALSE
+  ScopeAware = TRUE
 INVARIANTS TypeOK Confluent ImportSound Export
 PROPERTIES Stable Terminates
